@@ -119,6 +119,16 @@ class iterable_loader(DataStreamProcessor):
         dp.descriptor.setdefault('resources', []).append(self.res.descriptor)
         return dp
 
+    def iterate_rows(self):
+        try:
+            yield from self.res.iter(keyed=True)
+        except Exception:
+            # the row stream runs through tabulator, which replaces whatever the source raises
+            # by a SourceError(str(error)): hand on the recorded original instead
+            if self.exc is not None:
+                raise self.exc
+            raise
+
     def process_resources(self, resources):
         yield from super(iterable_loader, self).process_resources(resources)
-        yield self.res.iter(keyed=True)
+        yield self.iterate_rows()
